@@ -158,6 +158,19 @@ def term_to_S(u):
     return S(u)
 
 
+def _syntactically_positive(t):
+    if z3.is_rational_value(t):
+        return t.as_fraction() > 0
+    k = t.decl().kind()
+    ch = t.children()
+    if not ch:
+        at = SESSION.atom_of(t)
+        return at is not None and at.kind in ("exp", "pow")
+    if k in (z3.Z3_OP_ADD, z3.Z3_OP_MUL):
+        return all(_syntactically_positive(c) for c in ch)
+    return False
+
+
 class Session:
     """per-case symbolic state: atom axioms, preconditions, definedness side conditions, the active explorer"""
 
@@ -412,31 +425,48 @@ class S:
 
     # --------------------------------------------------------- transcendentals
     def exp(self):
+        """exp of a linear combination is normalised to a product of basis atoms:
+               exp(c + sum k_i*x_i + sum m_j*log(u_j)) = E(c) * prod E(x_i)**k_i * prod u_j**m_j        (integer k_i, m_j)
+           so that exp(s+t) = exp(s)exp(t), exp(-t) = 1/exp(t) and exp(log u) = u hold structurally."""
         if self.is_const() and self.const() == 0:
             return S(ONE)
-        factor = None
-        if z3.is_rational_value(self.d):
-            # canonicalise the argument and apply  exp(t + k*log u) = exp(t) * u**k  (u > 0 is log's own side condition)
-            c0, terms = lin_decompose(self.n, 1 / self.d.as_fraction())
-            for i in list(terms):
-                k, a = terms[i]
-                at = SESSION.atom_of(a)
-                if at is not None and at.kind == "log" and k.denominator == 1:
-                    u = at.arg ** int(k)
-                    factor = u if factor is None else factor * u
-                    del terms[i]
-            live = {i: v for i, v in terms.items() if v[0] != 0}
-            if not live and c0 == 0:
-                return factor if factor is not None else S(ONE)
-            arg = S(lin_rebuild(c0, live))
-        else:
-            arg = self
+        if not z3.is_rational_value(self.d):
+            return self._exp_atom(self)
+        c0, terms = lin_decompose(self.n, 1 / self.d.as_fraction())
+        r = S(ONE)
+        for i in sorted(terms):
+            k, a = terms[i]
+            if k == 0:
+                continue
+            at = SESSION.atom_of(a)
+            if at is not None and at.kind == "log" and k.denominator == 1:
+                r = r * (at.arg ** int(k))
+                continue
+            if k.denominator == 1:
+                r = r * (self._exp_atom(S(a)) ** int(k))
+            else:
+                base = self._exp_atom(S(RV(abs(k)) * a))
+                r = r * (base if k > 0 else base.inv_nocheck())
+        if c0 != 0:
+            base = self._exp_atom(S(RV(abs(c0))))
+            r = r * (base if c0 > 0 else base.inv_nocheck())
+        return r
+
+    @staticmethod
+    def _exp_atom(arg):
         a, new = SESSION.atom("exp", arg)
         if new:
             e = a.const
             t = arg.term()
-            SESSION.add_axiom(e > 0, (e > 1) == (t > 0), (e == 1) == (t == 0), atom=a)
-        return S(a.const) if factor is None else S(a.const) * factor
+            ax = [e > 0, (e > 1) == (t > 0), (e == 1) == (t == 0)]
+            # pairwise monotonicity with the exp atoms that already exist
+            for b in list(SESSION.atom_names.values()):
+                if b.kind == "exp" and b is not a:
+                    tb = b.arg.term()
+                    ax.append((e < b.const) == (t < tb))
+                    ax.append((e == b.const) == (t == tb))
+            SESSION.add_axiom(*ax, atom=a)
+        return S(a.const)
 
     def log(self):
         if self.is_const():
@@ -452,6 +482,33 @@ class S:
             at = SESSION.atom_of(self.n)
             if at is not None and at.kind == "exp":
                 return at.arg                           # log(exp t) = t
+        # log(n/d) = log n - log d  when d is syntactically positive (sums/products of exp atoms, pow atoms, positive constants)
+        if not z3.is_rational_value(self.d) and _syntactically_positive(self.d):
+            return S(self.n).log() - S(self.d).log()
+        # log(c * exp(t1) * ... * rest) = ln c + t1 + ... + log(rest)   (rest > 0 follows from the argument being > 0)
+        if z3.is_rational_value(self.d):
+            fs = self.n.children() if (self.n.decl().kind() == z3.Z3_OP_MUL) else [self.n]
+            pulled = None
+            rest = []
+            cst = 1 / self.d.as_fraction()
+            for f in fs:
+                at = SESSION.atom_of(f) if f.num_args() == 0 and not z3.is_rational_value(f) else None
+                if at is not None and at.kind == "exp":
+                    pulled = at.arg if pulled is None else pulled + at.arg
+                elif z3.is_rational_value(f):
+                    cst = cst * f.as_fraction()
+                else:
+                    rest.append(f)
+            if pulled is not None and cst > 0:
+                r = pulled
+                if cst != 1:
+                    r = r + S(RV(cst)).log()
+                if rest:
+                    prod = rest[0]
+                    for f in rest[1:]:
+                        prod = prod * f
+                    r = r + S(prod).log()
+                return r
         a, new = SESSION.atom("log", self)
         if new:
             e = a.const
